@@ -389,7 +389,7 @@ func main() {
 
 	r.Rule("evaluation = one digest returned by the library with a nil error for a fully delivered content, compared with the one-shot reference of exactly those bytes (and with the published vector when the content is one). " +
 		"Cases: A = (algorithm × content × chunking) on a fresh hasher, contents of length {0,1,…,15..17,31..33,55..57,63..65,111..129,…,32767..32769,65535..65537,2^20-1,2^20} (PRNG bytes, 0x00/0xff/'a' runs), log-uniform PRNG lengths and every published vector input, " +
-		"15 chunkings (1,7,511,512,513,32767,32768,32769, fill, cycle, random with sparse (0,nil) reads, data+EOF, zero-sprinkled, bytes.Reader, strings.Reader); non-trivial iff the instrumented reader delivered the content in ≥ 2 data-carrying reads. " +
+		"17 chunkings (1,7,511,512,513,32767,32768,32769, fill, cycle, random with sparse (0,nil) reads, data+EOF, zero-sprinkled, bytes.Reader, strings.Reader, a bytes.Reader positioned behind a header read before, a reader whose Seek method always fails); non-trivial iff the instrumented reader delivered the content in ≥ 2 data-carrying reads. " +
 		"M/E/S = histories on ONE hasher object: steps ok / fail@k (reader error after exactly k bytes, with or without data in the failing Read, custom error or io.ErrUnexpectedEOF) / cancel@k (context cancelled once k bytes were delivered, or before the call); " +
 		"E enumerates every sequence of length 1..3 over the alphabet {ok, fail@class, cancel@class} (offset classes 0,1,B-1,B,B+1,mid,L-1,L and, for cancel, before-the-call; B = block size, L = length), each followed by an ok probe; the thorough tier runs each such history in 8 variants of the unconstrained details (contents, chunkings, entry points), S samples lengths 1..6 with arbitrary k; constructors NewHashingAlgorithm(name) and NewBespokeHashingAlgorithm(observed standard hash); " +
 		"non-trivial iff a judged digest was preceded on the same object by a calculation that returned an error after the reader had delivered ≥ 1 byte. " +
@@ -503,7 +503,7 @@ func main() {
 	r.Exhaustive(false)
 
 	r.Require("algorithms", 6)
-	r.Require("chunkings", 15)
+	r.Require("chunkings", 17)
 	r.Require("backends", 2)
 	r.Require("file_entry_points_by_backend", 12)
 	r.Require("digests_judged", int64(r.Pick(50_000, 1_000_000)))
